@@ -80,10 +80,12 @@ fn main() {
         "gen-corpus" => semfam::gen_corpus(&args),
         "gen-bc" => bcfam::gen_bc(&args),
         "gen-big" => bigfam::gen_big(&args),
+        "gen-float" => bigfam::gen_float(&args),
         "gen-ops" => semfam::gen_ops(&args),
         "gen-rel" => relfam::gen_rel(&args),
         "gen-loops" => semfam::gen_loops(&args),
         "gen-templates" => tmplfam::gen_templates(&args),
+        "gen-deep-laws" => tmplfam::gen_deep_laws(&args),
         "replay-gc" => gcfam::replay_gc(&args),
         "gen-enum" => seqfam::gen_enum(&args),
         "replay-parse" => parsefam::replay_parse(&args),
